@@ -15,10 +15,10 @@ LEVEL = 'model_checking'
 EXHAUSTIVE = True
 RULE = ('History enumeration on the real Controller/ComponentState/Engine: case = (maxRestarts, restartHookFile, restartHookOn, '
         'system-stability answer) x script. Scripts: every sequence over {ResourceExhausted, KnownIssue, SystemIssue, '
-        'SubmissionFailed} up to length L (3 quick / 5 thorough) followed by every terminal reason {Success, Killed, Cancelled, '
+        'SubmissionFailed as a failed launch, SubmissionFailed reported by a task object} up to length L (3 quick / 5 thorough) followed by every terminal reason {Success, Killed, Cancelled, '
         'UnknownIssue, SystemIssue}, plus long runs X^k (k up to 8) and alternations that cross the 5-resubmission cap and '
         'maxRestarts=3; restart-hook answers: all-positive and every single deviation (one of 10 other answers at one position) '
-        'for scripts of length <=2 (quick) / <=3 (thorough). The monitor checks every relaunch against the policy of the statement. '
+        'for scripts of length <=1 (quick) / <=3 (thorough). The monitor checks every relaunch against the policy of the statement. '
         'distinct = distinct (config, script, hook answers); non-trivial = script has >=1 non-terminal step.')
 ASSUMPTIONS = [
     'controlled-runtime assumptions of C01 (scripted task backend / clock / stability tracker); canonical schedule only: '
@@ -31,7 +31,7 @@ MC_EXPLANATION = ('states = distinct (config, restart counter, resubmission coun
                   'task executions (launch attempts) driven through the real restart path; traces_validated_against_impl = complete '
                   'controller executions (all traces are implementation traces)')
 
-CONT = ['ResourceExhausted', 'KnownIssue', 'SystemIssue', 'SubmissionFailed']
+CONT = ['ResourceExhausted', 'KnownIssue', 'SystemIssue', 'SubmissionFailed', 'SubmissionFailed!']
 TERM = ['Success', 'Killed', 'Cancelled', 'UnknownIssue', 'SystemIssue']
 NONSUCCESS = ['KnownIssue', 'SystemIssue', 'SubmissionFailed', 'UnknownIssue', 'Killed', 'Cancelled', 'ResourceExhausted']
 HOOK_OK = 'RestartContextRestartPossible'
@@ -67,7 +67,7 @@ def configs(thorough):
 def scripts(thorough):
     """yields (reasons, whether single hook-answer deviations are enumerated for it)"""
     L = 5 if thorough else 3
-    LH = 3 if thorough else 2
+    LH = 3 if thorough else 1
     seen = set()
 
     def emit(reasons, hooks):
@@ -83,7 +83,7 @@ def scripts(thorough):
                 r = list(body) + [t]
                 if emit(r, []):
                     yield r, (l <= LH)
-    for x in ('ResourceExhausted', 'KnownIssue', 'SubmissionFailed', 'Success'):
+    for x in ('ResourceExhausted', 'KnownIssue', 'SubmissionFailed', 'SubmissionFailed!', 'Success'):
         for k in range(4, 9):
             r = [x] * k + (['Success'] if x != 'Success' else ['Killed'])
             if emit(r, []):
@@ -92,7 +92,8 @@ def scripts(thorough):
              ['SubmissionFailed'] * 5 + ['ResourceExhausted'] + ['SubmissionFailed'] * 3 + ['Success'],
              ['SubmissionFailed'] * 3 + ['ResourceExhausted'] * 3 + ['SubmissionFailed'] * 3 + ['ResourceExhausted', 'Success'],
              ['ResourceExhausted'] * 3 + ['Killed'], ['ResourceExhausted'] * 2 + ['Cancelled'],
-             ['SubmissionFailed'] * 6 + ['Killed'], ['KnownIssue', 'ResourceExhausted'] * 3 + ['Success']]
+             ['SubmissionFailed'] * 6 + ['Killed'], ['KnownIssue', 'ResourceExhausted'] * 3 + ['Success'],
+             ['SubmissionFailed', 'SubmissionFailed!'] * 4 + ['Success'], ['SubmissionFailed!'] * 3 + ['ResourceExhausted'] + ['SubmissionFailed!'] * 4 + ['Success']]
     for r in longs:
         if emit(r, []):
             yield r, False
@@ -207,7 +208,7 @@ def drop_envs():
     _Env.cache.clear()
 
 
-def drive(case, stable=True):
+def drive(case, stable=True, kill_at=None):
     """Sequential driver over the REAL restart path for one component. Returns (attempts, final_state, codes, steps)."""
     from verif.vsched import harness as h, runtime as vrt
     cfg = case['config']
@@ -218,13 +219,14 @@ def drive(case, stable=True):
     h.STABLE.stable = stable
     h.H.on_launch = None
     ref = 'stage0.k0'
-    h.H.script = {ref: [['LaunchOSError' if r == 'SubmissionFailed' else r, 0.0] for r in case['reasons']] + [['Success', 0.0]]}
+    h.H.script = {ref: [['LaunchOSError' if r == 'SubmissionFailed' else r.rstrip('!'), 0.0] for r in case['reasons']] + [['Success', 0.0]]}
     h.H.hook_answers = {'k0': list(case['hooks'])}
     h.H.outmode = {ref: 'never'}
     controller = env['controller']
     comp = h.M.workflow.ComponentState(env['job'], env['exp'].experimentGraph, create_engine=True)
     env['keep'] = comp
     steps = [0]
+    kill_info = {}
 
     def pump(until, cap=4000):
         while not until():
@@ -258,6 +260,17 @@ def drive(case, stable=True):
             if comp.controllerState is not None:
                 break
             # restart initiated: wait for the new task to exit
+            if kill_at is not None and rounds == 1:
+                # environment event: the engine is killed from outside `kill_at` scheduling steps after the restart
+                n0 = steps[0]
+                pump(lambda: comp.engine.exitReason() is not None or steps[0] - n0 >= kill_at)
+                kill_info['alive_at_kill'] = comp.engine.isAlive()
+                kill_info['launches_before_kill'] = sum(h.H.launches.values())
+                kill_info['exits_before_kill'] = len([e for e in h.H.events if e['kind'] in ('exit', 'launch-failed')])
+                kill_info['steps'] = steps[0] - n0
+                if comp.engine.isAlive():
+                    comp.engine.kill()
+                    kill_info['killed'] = True
             pump(lambda: comp.engine.exitReason() is not None)
         attempts = []
         hook_calls = []
@@ -268,13 +281,14 @@ def drive(case, stable=True):
                 attempts.append('SubmissionFailed')
             elif e['kind'] == 'hook':
                 hook_calls.append(e['answer'])
-        return attempts, comp.state, hook_calls, steps[0], comp.engine.restarts, comp.engine.resubmissionAttempts(), rounds, list(rt.errors)
+        kill_info['launches_total'] = sum(h.H.launches.values())
+        return attempts, comp.state, hook_calls, steps[0], comp.engine.restarts, comp.engine.resubmissionAttempts(), rounds, list(rt.errors), kill_info
     finally:
         rt.teardown()
 
 
 def run_case(col, case, stable=True):
-    attempts, final_state, hook_calls, steps, restarts, resub, rounds, errors = drive(case, stable)
+    attempts, final_state, hook_calls, steps, restarts, resub, rounds, errors, _ki = drive(case, stable)
     col.evaluated()
     col.traces += 1
     col.transitions += len(attempts)
@@ -312,6 +326,68 @@ def worker(col, item, tier, seed):
                     col.sample(case)
     finally:
         drop_envs()
+
+
+# ------------------------------------------------------------------ part C: an external kill racing a restart
+def run_kill_case(col, case):
+    """After the first restart has been initiated the engine is killed from outside at EVERY scheduling step between
+    the restart and the exit of the restarted task; afterwards the controller's post-mortem decision runs. No task
+    may be started after the kill."""
+    base = drive(case, True)
+    if len(base[0]) < 2:
+        return
+    k = 0
+    while True:
+        attempts, final_state, hook_calls, steps, restarts, resub, rounds, errors, ki = drive(case, True, kill_at=k)
+        col.evaluated()
+        col.traces += 1
+        col.transitions += 1
+        if not ki.get('killed'):
+            break
+        cc = dict(case, kill_at=k, part='kill')
+        col.nontriv(cc)
+        col.state(('kill', canon(case['config']), k, ki['launches_before_kill']))
+        col.outcome('kill: launches before=%d exits before=%d total=%d final=%s' % (
+            ki['launches_before_kill'], ki['exits_before_kill'], ki['launches_total'], final_state))
+        # Judged only when the kill provably hit the restarted execution: either the restarted task had not been created
+        # yet (one launch, one exit so far) or it was running (two launches, one exit). If the restarted task had already
+        # exited by itself the kill merely raced its exit and the exit reason of that task decides (generic monitor).
+        # A launch that was already in flight inside Engine.run when the kill arrived may still create its task; the engine
+        # then kills it at once (documented case 2B of Engine.run). That is tolerated: at most one launch after the kill and
+        # its task must end Killed/Cancelled.
+        after = ki['launches_total'] - ki['launches_before_kill']
+        in_flight_ok = after == 1 and attempts and attempts[-1] in ('Killed', 'Cancelled')
+        if ki['exits_before_kill'] == 1 and after >= 1 and not in_flight_ok:
+            col.fail(cc, 'a task was started after the engine had been killed from outside (%d launch(es) and %d exit(s) before the kill, %d launches in total; attempts %r)' % (
+                ki['launches_before_kill'], ki['exits_before_kill'], ki['launches_total'], attempts),
+                {'attempts': attempts, 'final': final_state, 'kill': ki}, sig='C12:restart-after-external-kill')
+        if final_state not in ('finished', 'failed', 'component_shutdown'):
+            col.fail(cc, 'after an external kill the component did not receive a final state: %r' % (final_state,),
+                     {'attempts': attempts, 'kill': ki}, sig='C12:no-final-state-after-kill')
+        k += 1
+        if k > 400:
+            raise HarnessError('C12 kill driver: more than 400 positions')
+
+
+def worker_kill(col, item, tier, seed):
+    try:
+        for case in item:
+            run_kill_case(col, case)
+    finally:
+        drop_envs()
+
+
+def kill_cases(thorough):
+    cfgs = [{'maxRestarts': None, 'restartHookFile': 'unset', 'restartHookOn': None},
+            {'maxRestarts': None, 'restartHookFile': 'custom.py', 'restartHookOn': ['KnownIssue', 'ResourceExhausted']},
+            {'maxRestarts': 1, 'restartHookFile': '', 'restartHookOn': None}]
+    scr = [['ResourceExhausted', 'Success'], ['ResourceExhausted', 'ResourceExhausted', 'Success'], ['SubmissionFailed', 'Success'],
+           ['SubmissionFailed!', 'Success']]
+    if thorough:
+        scr += [['KnownIssue', 'Success'], ['ResourceExhausted', 'KnownIssue', 'Success']]
+    for c in cfgs:
+        for r in scr:
+            yield {'config': c, 'reasons': r, 'hooks': [], 'shutdownOn': []}
 
 
 # ------------------------------------------------------------------ part B: repeating components (RepeatingEngine.restart)
@@ -393,6 +469,9 @@ def run(ctx):
     rc = list(rep_cases(ctx.thorough))
     ctx.count('repeating_cases', len(rc))
     ctx.pmap('verif.props.c12', 'worker_rep', [rc[i:i + 6] for i in range(0, len(rc), 6)], maxtasksperchild=4)
+    kc = list(kill_cases(ctx.thorough))
+    ctx.count('kill_racing_restart_cases', len(kc))
+    ctx.pmap('verif.props.c12', 'worker_kill', [[c] for c in kc], maxtasksperchild=4)
     scr = list(scripts(ctx.thorough))
     ctx.count('scripts', len(scr))
     items = []
@@ -412,6 +491,12 @@ def run(ctx):
 def replay(ctx, case):
     if case.get('part') == 'repeating':
         run_rep_case(ctx, case['case'])
+        return
+    if case.get('part') == 'kill':
+        try:
+            run_kill_case(ctx, {k: case[k] for k in ('config', 'reasons', 'hooks', 'shutdownOn')})
+        finally:
+            drop_envs()
         return
     try:
         run_case(ctx, {'config': case['config'], 'reasons': case['reasons'], 'hooks': case['hooks'],
